@@ -206,6 +206,67 @@ Proof.
     rewrite (parse_one_wire m s _ Hp). rewrite (IH Hl). reflexivity.
 Qed.
 
+(** the last response of a connection the server closes: a head that announces no length (the bytes up to the
+    end of the stream are the body), or a response framed as usual *)
+Definition close_framed (m : N) (s : sent) : Prop :=
+  head_ok (st_head s) /\
+  if is_head_method m || bodyless_status (hd_status (st_head s))
+  then st_body s = [] /\ announced_ok_bodyless (hd_headers (st_head s)) = true
+  else filter (is_name s_content_length) (hd_headers (st_head s)) = [] \/
+       announced (hd_headers (st_head s)) = Some (N.of_nat (length (st_body s))).
+
+Lemma parse_last_wire m s : close_framed m s -> parse_last m (wire s) = Some (observable s).
+Proof.
+  intros [(Hv & Hst & Hhs & Hte) Hb]. destruct s as [[v st hs] body]. cbn [st_head st_body hd_version hd_status hd_headers] in *.
+  unfold wire, print_response, print_head, observable. cbn [st_head st_body hd_version hd_status hd_headers].
+  set (line := version_text v ++ [32] ++ status_text st ++ [32] ++ reason st).
+  replace ((version_text v ++ [32] ++ status_text st ++ [32] ++ reason st ++ crlf ++ print_headers hs ++ crlf) ++ body)
+    with (line ++ crlf ++ (print_headers hs ++ crlf ++ body)) by (unfold line; rewrite <- !app_assoc; reflexivity).
+  unfold parse_last.
+  assert (Hline : no_nl line = true).
+  { unfold line. rewrite !no_nl_app, reason_no_nl.
+    destruct (status_text_digits st Hst) as (d1 & d2 & d3 & E & H1 & H2 & H3 & _). rewrite E.
+    assert (Hd : forall d, is_digit d = true -> negb (is_nl d) = true).
+    { intros d Hd. unfold is_digit in Hd. unfold is_nl. lia. }
+    cbn [no_nl forallb]. rewrite (Hd _ H1), (Hd _ H2), (Hd _ H3).
+    destruct Hv as [-> | ->]; reflexivity. }
+  rewrite (split_crlf_app _ _ Hline).
+  unfold line. rewrite (status_line_roundtrip v st (reason st) Hv Hst (reason_no_nl st)).
+  rewrite header_block_roundtrip; [|assumption|].
+  2:{ rewrite !app_length. pose proof (print_headers_length hs). lia. }
+  rewrite Hte.
+  destruct (is_head_method m || bodyless_status st).
+  - destruct Hb as [-> Ha]. rewrite Ha. reflexivity.
+  - destruct Hb as [Hnone | Ha].
+    + rewrite Hnone. reflexivity.
+    + unfold announced in Ha |- *.
+      destruct (filter (is_name s_content_length) hs) as [|h [|h2 t]] eqn:Ef; try discriminate.
+      rewrite Ha, N.eqb_refl. reflexivity.
+Qed.
+
+Lemma framed_close_framed m s : framed m s -> close_framed m s.
+Proof.
+  intros [Hh Hb]. split; [assumption|]. destruct (is_head_method m || bodyless_status (hd_status (st_head s))); [assumption|].
+  right. assumption.
+Qed.
+
+(** responses framed by their lengths, then one the close ends *)
+Lemma closing_roundtrip ms ss : Forall2 framed ms ss -> forall m s, close_framed m s ->
+  parse_closing (ms ++ [m]) (concat (map wire ss) ++ wire s) = Some (map observable ss ++ [observable s]).
+Proof.
+  induction 1 as [|m0 s0 ms ss Hf Hrest IH]; intros m s Hc.
+  - cbn [app map concat parse_closing]. rewrite (parse_last_wire m s Hc). reflexivity.
+  - cbn [map concat]. rewrite <- app_assoc.
+    change ((m0 :: ms) ++ [m]) with (m0 :: (ms ++ [m])).
+    assert (E : parse_closing (m0 :: (ms ++ [m])) (wire s0 ++ concat (map wire ss) ++ wire s) =
+                match parse_one m0 (wire s0 ++ concat (map wire ss) ++ wire s) with
+                | None => None
+                | Some (r, rest) => match parse_closing (ms ++ [m]) rest with Some rs => Some (r :: rs) | None => None end
+                end).
+    { destruct ms as [|m1 ms]; reflexivity. }
+    rewrite E, (parse_one_wire m0 s0 _ Hf), (IH m s Hc). reflexivity.
+Qed.
+
 (** ------------------------------------------------------------------------------------------
     B. the send path
     ------------------------------------------------------------------------------------------ *)
@@ -323,21 +384,47 @@ Proof.
   cbn [andb obind]. discriminate.
 Qed.
 
-(** the invariants of the [http] crate and of a sane handler, for what [handle_cache] returns *)
+Lemma beq_sym a c : beq a c = beq c a.
+Proof.
+  destruct (beq a c) eqn:E1; destruct (beq c a) eqn:E2; try reflexivity.
+  - apply beq_eq in E1. subst. rewrite beq_refl in E2. discriminate.
+  - apply beq_eq in E2. subst. rewrite beq_refl in E1. discriminate.
+Qed.
+Lemma assoc_hm_insert n v hs : assoc n (hm_insert n v hs) = Some v.
+Proof.
+  induction hs as [|[k w] r IH]; cbn [hm_insert assoc fst].
+  - rewrite beq_refl. reflexivity.
+  - destruct (beq k n) eqn:E; cbn [assoc].
+    + rewrite beq_refl. reflexivity.
+    + rewrite beq_sym, E. exact IH.
+Qed.
+
+(** a streamed reply: not a 1xx/204/304; the announced length is the length of what body and future write;
+    a stream of unknown length is not framed by the handler itself *)
+Definition stream_ok (r : reply0) : Prop :=
+  match r0_future r with
+  | None => True
+  | Some (Some l, chunks) =>
+      bodyless_status (r0_status r) = false /\ l = N.of_nat (length (r0_body r) + length (concat chunks))
+  | Some (None, _) =>
+      bodyless_status (r0_status r) = false /\ filter (is_name s_transfer_encoding) (r0_headers r) = [] /\
+      filter (is_name s_content_length) (r0_headers r) = []
+  end.
+(** the invariants of the [http] crate (status 100..999, lower-case token names, values without CR/LF, not
+    HTTP/0.9), a range that comes from [sanitize_request], and [stream_ok].  Nothing is asked of the body of a
+    1xx/204/304 reply or about [transfer-encoding] any more: [send] repairs both *)
 Definition reply_ok (r : reply0) : Prop :=
   100 <= r0_status r <= 999 /\ r0_version r <> 9 /\
   Forall (fun x => hdr_ok x = true) (r0_headers r) /\ names_lower (r0_headers r) /\
-  filter (is_name s_transfer_encoding) (r0_headers r) = [] /\
-  (bodyless_status (r0_status r) = true -> r0_body r = []) /\
   match r0_sanitize r with
-  | Some (Some (s, e)) => s < e \/ N.of_nat (length (r0_body r)) <= s
+  | Some (Some (s, e)) => s < e
   | _ => True
-  end.
+  end /\
+  stream_ok r.
 (** the response after the range step *)
 Definition mid_ok (r : reply0) : Prop :=
   100 <= r0_status r <= 999 /\ r0_version r <> 9 /\
   Forall (fun x => hdr_ok x = true) (r0_headers r) /\ names_lower (r0_headers r) /\
-  filter (is_name s_transfer_encoding) (r0_headers r) = [] /\
   (bodyless_status (r0_status r) = true -> r0_body r = []).
 (** Package extensions may add and change headers, but leave version, status, [content-length] alone,
     keep the [http] crate's invariants and do not add [transfer-encoding] *)
@@ -350,6 +437,58 @@ Definition package_ok (pk : head -> head) : Prop := forall h,
 Lemma package_id_ok : package_ok (fun h => h).
 Proof. intros h. repeat split; auto. Qed.
 
+Lemma has_header_false n hs : has_header n hs = false <-> filter (is_name n) hs = [].
+Proof. apply existsb_filter_nil. Qed.
+Lemma has_header_true n hs h t : filter (is_name n) hs = h :: t -> has_header n hs = true.
+Proof.
+  intros E. destruct (has_header n hs) eqn:H; [reflexivity|]. apply has_header_false in H. congruence.
+Qed.
+
+(** [ensure_length]: exactly one [content-length], the announced one, and no [transfer-encoding] *)
+Lemma ensure_length_props l hs :
+  Forall (fun x => hdr_ok x = true) hs -> names_lower hs ->
+  Forall (fun x => hdr_ok x = true) (ensure_length l hs) /\ names_lower (ensure_length l hs) /\
+  filter (is_name s_transfer_encoding) (ensure_length l hs) = [] /\
+  filter (is_name s_content_length) (ensure_length l hs) = [(s_content_length, dec l)].
+Proof.
+  intros Hhs Hlo. unfold ensure_length.
+  assert (H1 : Forall (fun x => hdr_ok x = true) (hm_insert s_content_length (dec l) hs)).
+  { apply hm_insert_Forall; [|assumption]. unfold hdr_ok. cbn [fst snd]. rewrite value_ok_dec. reflexivity. }
+  assert (H2 : names_lower (hm_insert s_content_length (dec l) hs)) by (apply hm_insert_lower; [reflexivity | assumption]).
+  split; [apply hm_remove_Forall; assumption|]. split; [apply hm_remove_lower; assumption|].
+  split; [apply filter_hm_remove_same; assumption|].
+  rewrite filter_hm_remove_other; [|reflexivity]. apply filter_hm_insert_same; [reflexivity | assumption].
+Qed.
+
+Lemma connection_rule_props st hs :
+  Forall (fun x => hdr_ok x = true) hs ->
+  Forall (fun x => hdr_ok x = true) (connection_rule st hs) /\
+  (forall a, (forall w, is_name a (s_connection, w) = false) ->
+             filter (is_name a) (connection_rule st hs) = filter (is_name a) hs).
+Proof.
+  intros H. unfold connection_rule.
+  assert (Hins : Forall (fun x => hdr_ok x = true) (hm_insert s_connection s_keep_alive hs))
+    by (apply hm_insert_Forall; [reflexivity | assumption]).
+  assert (Hcl : Forall (fun x => hdr_ok x = true) (hm_insert s_connection (B "close") hs))
+    by (apply hm_insert_Forall; [reflexivity | assumption]).
+  destruct (close_delimited_head st hs).
+  { split; [assumption|]. intros a Ha. apply filter_hm_insert_other; assumption. }
+  destruct (assoc s_connection hs) as [v|]; [destruct (to_str_ok v && negb (beq v (B "close")))|];
+    (split; [assumption|]); intros a Ha; try reflexivity; apply filter_hm_insert_other; assumption.
+Qed.
+
+Lemma body_written_spec m body :
+  body_written m body = if m =? M_HEAD then [] else body.
+Proof.
+  unfold body_written. destruct body as [|c body]; [destruct (m =? M_HEAD); reflexivity|].
+  cbn [negb andb]. destruct (N.eqb_spec m M_HEAD) as [->|Hne].
+  - reflexivity.
+  - cbn [negb]. rewrite orb_true_r. reflexivity.
+Qed.
+
+Lemma bodyless_101 : bodyless_status 101 = true.
+Proof. reflexivity. Qed.
+
 Section SendProofs.
   Variable error_body : N -> option bytes -> bytes.
   Variable package : head -> head.
@@ -359,28 +498,33 @@ Section SendProofs.
   Proof.
     intros Hc Hb. unfold mid_ok, default_error.
     cbn [r0_status r0_version r0_headers r0_body].
-    split; [lia|]. split; [discriminate|]. split; [|split; [|split]].
+    split; [lia|]. split; [discriminate|]. split; [|split].
     - destruct msg as [m|]; [destruct (value_ok m) eqn:E|]; repeat constructor.
       unfold hdr_ok. cbn [fst snd]. rewrite E. reflexivity.
     - destruct msg as [m|]; [destruct (value_ok m)|]; repeat constructor.
-    - destruct msg as [m|]; [destruct (value_ok m)|]; reflexivity.
     - rewrite Hb. discriminate.
   Qed.
 
-  Lemma apply_sanitize_mid r : reply_ok r -> exists r1, apply_sanitize error_body r = Ok r1 /\ mid_ok r1.
+  (** the range step on a reply without a future whose 1xx/204/304 body was dropped *)
+  Lemma apply_sanitize_mid r :
+    100 <= r0_status r <= 999 -> r0_version r <> 9 ->
+    Forall (fun x => hdr_ok x = true) (r0_headers r) -> names_lower (r0_headers r) ->
+    (bodyless_status (r0_status r) = true -> r0_body r = []) ->
+    match r0_sanitize r with Some (Some (s, e)) => s < e | _ => True end ->
+    r0_future r = None ->
+    exists r1, apply_sanitize error_body r = Ok r1 /\ mid_ok r1 /\ r0_future r1 = None.
   Proof.
-    intros (Hst & Hv & Hhs & Hlo & Hte & Hbl & Hrg). unfold apply_sanitize.
+    intros Hst Hv Hhs Hlo Hbl Hrg Hfu. unfold apply_sanitize.
     destruct (r0_sanitize r) as [rg|].
-    2:{ exists r. split; [reflexivity|]. repeat split; assumption || lia. }
+    2:{ exists r. split; [reflexivity|]. split; [|assumption]. repeat split; assumption || lia. }
     destruct (apply_range true rg (r0_status r) (r0_body r)) as [x|e|] eqn:E.
-    - eexists. split; [reflexivity|].
+    - eexists. split; [reflexivity|]. cbn [r0_future]. split; [|assumption].
       destruct (apply_range_ok _ _ _ _ E) as [(-> & Es & Ecr & Eb) | (s & e & -> & Hs & Es & Ear & cr & Ecr & Hcr)].
       + rewrite Ecr. unfold mid_ok. cbn [r0_status r0_version r0_headers r0_body]. rewrite Es, Eb.
         destruct (r_accept_ranges x).
         * repeat split; try assumption; try lia.
           -- apply hm_insert_Forall; [reflexivity | assumption].
           -- apply hm_insert_lower; [reflexivity | assumption].
-          -- rewrite filter_hm_insert_other; [assumption | reflexivity].
         * repeat split; try assumption; lia.
       + rewrite Ecr, Ear. unfold mid_ok. cbn [r0_status r0_version r0_headers r0_body]. rewrite Es.
         repeat split; try assumption.
@@ -388,80 +532,168 @@ Section SendProofs.
         * destruct (r0_status r =? 200); lia.
         * apply hm_insert_Forall; [|assumption]. unfold hdr_ok. cbn [fst snd]. rewrite Hcr. reflexivity.
         * apply hm_insert_lower; [reflexivity | assumption].
-        * rewrite filter_hm_insert_other; [assumption | reflexivity].
         * intros Hb. destruct (N.eqb_spec (r0_status r) 200) as [E2|E2]; [vm_compute in Hb; discriminate|].
           rewrite (Hbl Hb) in Hs. cbn in Hs. lia.
-    - eexists. split; [reflexivity|]. apply default_error_mid; [lia | reflexivity].
-    - exfalso. destruct rg as [[s e]|]; [|discriminate]. exact (apply_range_no_panic s e _ _ Hrg E).
+    - eexists. split; [reflexivity|]. split; [|reflexivity]. apply default_error_mid; [lia | reflexivity].
+    - exfalso. destruct rg as [[s e]|]; [|discriminate].
+      exact (apply_range_no_panic s e _ _ (or_introl Hrg) E).
   Qed.
 
-  Lemma connection_rule_props hs :
-    Forall (fun x => hdr_ok x = true) hs ->
-    Forall (fun x => hdr_ok x = true) (connection_rule hs) /\
-    (forall a, (forall w, is_name a (s_connection, w) = false) ->
-               filter (is_name a) (connection_rule hs) = filter (is_name a) hs).
+  (** the first steps of [send]: the body of a 1xx/204/304 dropped, the range applied unless the reply streams *)
+  Definition pre_send (r : reply0) : outcome reply0 :=
+    match r0_future (clear_bodyless r) with
+    | Some _ => Ok (clear_bodyless r)
+    | None => apply_sanitize error_body (clear_bodyless r)
+    end.
+
+  Lemma clear_bodyless_fields r :
+    r0_status (clear_bodyless r) = r0_status r /\ r0_version (clear_bodyless r) = r0_version r /\
+    r0_headers (clear_bodyless r) = r0_headers r /\ r0_sanitize (clear_bodyless r) = r0_sanitize r /\
+    r0_future (clear_bodyless r) = r0_future r /\
+    (bodyless_status (r0_status r) = true -> r0_body (clear_bodyless r) = []) /\
+    (bodyless_status (r0_status r) = false -> r0_body (clear_bodyless r) = r0_body r).
   Proof.
-    intros H. unfold connection_rule.
-    assert (Hins : Forall (fun x => hdr_ok x = true) (hm_insert s_connection s_keep_alive hs))
-      by (apply hm_insert_Forall; [reflexivity | assumption]).
-    destruct (assoc s_connection hs) as [v|]; [destruct (to_str_ok v && negb (beq v (B "close")))|];
-      (split; [assumption|]); intros a Ha; try reflexivity; apply filter_hm_insert_other; assumption.
+    unfold clear_bodyless. destruct (bodyless_status (r0_status r)); cbn [r0_status r0_version r0_headers r0_sanitize r0_future r0_body];
+      repeat split; try reflexivity; discriminate.
   Qed.
 
-  Lemma body_written_spec m body :
-    body_written m body = if m =? M_HEAD then [] else body.
+  Lemma pre_send_mid r : reply_ok r ->
+    exists r1, pre_send r = Ok r1 /\ mid_ok r1 /\
+      match r0_future r with
+      | None => r0_future r1 = None
+      | Some f => r0_future r1 = Some f /\ r0_headers r1 = r0_headers r /\ r0_body r1 = r0_body r /\
+                  r0_status r1 = r0_status r
+      end.
   Proof.
-    unfold body_written. destruct body as [|c body]; [destruct (m =? M_HEAD); reflexivity|].
-    cbn [negb andb]. destruct (N.eqb_spec m M_HEAD) as [->|Hne].
-    - reflexivity.
-    - cbn [negb]. rewrite orb_true_r. reflexivity.
+    intros (Hst & Hv & Hhs & Hlo & Hrg & Hso). unfold pre_send.
+    destruct (clear_bodyless_fields r) as (Es & Ev & Eh & Esa & Ef & Eb1 & Eb2).
+    rewrite Ef. destruct (r0_future r) as [f|] eqn:Efu.
+    - exists (clear_bodyless r). split; [reflexivity|].
+      assert (Hnb : bodyless_status (r0_status r) = false).
+      { unfold stream_ok in Hso. rewrite Efu in Hso. destruct f as [[l|] cs]; tauto. }
+      split.
+      + unfold mid_ok. rewrite Es, Ev, Eh. repeat split; try assumption; try lia.
+      + repeat split; try assumption. apply Eb2. assumption.
+    - destruct (apply_sanitize_mid (clear_bodyless r)) as (r1 & E1 & Hm & Hf1).
+      + rewrite Es. assumption.
+      + rewrite Ev. assumption.
+      + rewrite Eh. assumption.
+      + rewrite Eh. assumption.
+      + rewrite Es. assumption.
+      + rewrite Esa. assumption.
+      + congruence.
+      + exists r1. split; [exact E1 | split; [exact Hm | exact Hf1]].
   Qed.
 
-  (** every output of the send path: well formed for the strict client, and the announced length is the
-      length of the representation whatever the method *)
+  (** every output of the send path: well formed for the strict client; unless the reply is a stream of
+      unknown length, the announced length is the length of the representation whatever the method *)
   Lemma send_facts m r : reply_ok r ->
-    exists r1 s, apply_sanitize error_body r = Ok r1 /\ send error_body package m r = Ok s /\
-      head_ok (st_head s) /\
-      announced (hd_headers (st_head s)) = Some (N.of_nat (length (r0_body r1))) /\
-      st_body s = (if m =? M_HEAD then [] else r0_body r1) /\
-      (bodyless_status (hd_status (st_head s)) = true -> r0_body r1 = []) /\
-      st_head s = (let hs2 := hm_insert s_content_length (dec (N.of_nat (length (r0_body r1)))) (r0_headers r1) in
-                   let h4 := package (mkHead (ensure_version (r0_version r1)) (r0_status r1) hs2) in
-                   mkHead (hd_version h4) (hd_status h4) (connection_rule (hd_headers h4))).
+    exists r1 s, pre_send r = Ok r1 /\ send error_body package m r = Ok s /\
+      ((hd_version (st_head s) = 10 \/ hd_version (st_head s) = 11) /\ 100 <= hd_status (st_head s) <= 999 /\
+       Forall (fun x => hdr_ok x = true) (hd_headers (st_head s))) /\
+      filter (is_name s_transfer_encoding) (hd_headers (st_head s)) = [] /\
+      st_body s = (if m =? M_HEAD then [] else r0_body r1 ++ stream_bytes r1) /\
+      (bodyless_status (hd_status (st_head s)) = true -> r0_body r1 ++ stream_bytes r1 = []) /\
+      (forall m', exists s', send error_body package m' r = Ok s' /\ st_head s' = st_head s) /\
+      (unframed r = false ->
+       announced (hd_headers (st_head s)) = Some (N.of_nat (length (r0_body r1 ++ stream_bytes r1)))) /\
+      (unframed r = true ->
+       filter (is_name s_content_length) (hd_headers (st_head s)) = [] /\
+       bodyless_status (hd_status (st_head s)) = false /\
+       assoc s_connection (hd_headers (st_head s)) = Some (B "close")).
   Proof.
-    intros Hr. destruct (apply_sanitize_mid r Hr) as (r1 & E1 & (Hst & Hv & Hhs & Hlo & Hte & Hbl)).
-    unfold send. rewrite E1. cbn [obind]. eexists r1, _. split; [reflexivity|]. split; [reflexivity|].
-    cbn [st_head st_body].
-    set (hs2 := hm_insert s_content_length (dec (N.of_nat (length (r0_body r1)))) (r0_headers r1)).
+    intros Hr. destruct (pre_send_mid r Hr) as (r1 & E1 & (Hst & Hv & Hhs & Hlo & Hbl) & Hfut).
+    destruct Hr as (_ & _ & _ & _ & _ & Hso).
+    assert (Esend : forall m', send error_body package m' r = obind (pre_send r) (fun r1 =>
+      let body := r0_body r1 in
+      let hs2 := match r0_future r1 with
+                 | Some (None, _) => r0_headers r1
+                 | Some (Some len, _) => ensure_length len (r0_headers r1)
+                 | None => ensure_length (N.of_nat (length body)) (r0_headers r1)
+                 end in
+      let h4 := package (mkHead (ensure_version (r0_version r1)) (r0_status r1) hs2) in
+      Ok (mkSent (mkHead (hd_version h4) (hd_status h4) (connection_rule (hd_status h4) (hd_headers h4)))
+                 (body_written m' body ++
+                  (if (m' =? M_HEAD) && negb (hd_status h4 =? 101) then [] else stream_bytes r1))))) by reflexivity.
+    set (hs2 := match r0_future r1 with
+                | Some (None, _) => r0_headers r1
+                | Some (Some len, _) => ensure_length len (r0_headers r1)
+                | None => ensure_length (N.of_nat (length (r0_body r1))) (r0_headers r1)
+                end).
     set (h3 := mkHead (ensure_version (r0_version r1)) (r0_status r1) hs2).
     destruct (Hpk h3) as (Pv & Ps & Ph & Pt & Pc).
-    assert (Hhs2 : Forall (fun x => hdr_ok x = true) hs2).
-    { apply hm_insert_Forall; [|assumption]. unfold hdr_ok. cbn [fst snd]. rewrite value_ok_dec. reflexivity. }
-    assert (Hte2 : filter (is_name s_transfer_encoding) hs2 = []).
-    { unfold hs2. rewrite filter_hm_insert_other; [assumption | reflexivity]. }
-    assert (Hcl2 : filter (is_name s_content_length) hs2 = [(s_content_length, dec (N.of_nat (length (r0_body r1))))]).
-    { apply filter_hm_insert_same; [reflexivity | assumption]. }
-    destruct (connection_rule_props (hd_headers (package h3)) (Ph Hhs2)) as (Ch & Cf).
-    cbn [hd_version hd_status hd_headers].
-    split; [|split; [|split; [|split]]].
-    - unfold head_ok. cbn [hd_version hd_status hd_headers]. rewrite Pv, Ps. cbn [h3 hd_version hd_status].
-      split; [|split; [lia|split; [assumption|]]].
-      + unfold ensure_version.
-        destruct (N.eqb_spec (r0_version r1) 9) as [E9|_]; [congruence|].
-        destruct (N.eqb_spec (r0_version r1) 10) as [->|_]; [left; reflexivity|].
-        destruct (N.eqb_spec (r0_version r1) 11) as [->|_]; right; reflexivity.
-      + apply existsb_filter_nil. rewrite Cf; [|reflexivity]. apply Pt. assumption.
-    - unfold announced. rewrite Cf; [|reflexivity]. rewrite Pc. cbn [h3 hd_headers]. rewrite Hcl2.
+    (* the head before the package: its headers, content-length and transfer-encoding *)
+    assert (Hhs2 : Forall (fun x => hdr_ok x = true) hs2 /\
+                   (unframed r = false ->
+                    filter (is_name s_transfer_encoding) hs2 = [] /\
+                    filter (is_name s_content_length) hs2 =
+                      [(s_content_length, dec (N.of_nat (length (r0_body r1 ++ stream_bytes r1))))]) /\
+                   (unframed r = true ->
+                    filter (is_name s_transfer_encoding) hs2 = [] /\ filter (is_name s_content_length) hs2 = [] /\
+                    bodyless_status (r0_status r1) = false) /\
+                   filter (is_name s_transfer_encoding) hs2 = [] /\
+                   (r0_future r1 <> None -> bodyless_status (r0_status r1) = false)).
+    { unfold hs2, unframed, stream_bytes, stream_ok in *.
+      destruct (r0_future r) as [[[l|] cs]|] eqn:Efu.
+      - destruct Hfut as (Ef1 & Eh1 & Eb1 & Es1). rewrite Ef1. destruct Hso as [Hnb ->].
+        destruct (ensure_length_props (N.of_nat (length (r0_body r) + length (concat cs))) _ Hhs Hlo) as (A1 & A2 & A3 & A4).
+        split; [assumption|]. split; [|split; [discriminate|split; [assumption|intros _; rewrite Es1; assumption]]].
+        intros _. split; [assumption|]. rewrite A4, app_length, Eb1. reflexivity.
+      - destruct Hfut as (Ef1 & Eh1 & Eb1 & Es1). rewrite Ef1. destruct Hso as (Hnb & Hte & Hcl).
+        assert (Hh : has_header s_transfer_encoding (r0_headers r) = false) by (apply has_header_false; assumption).
+        assert (Hh2 : has_header s_content_length (r0_headers r) = false) by (apply has_header_false; assumption).
+        rewrite Hh, Hh2. cbn [negb andb]. rewrite Eh1.
+        split; [rewrite <- Eh1; assumption|]. split; [discriminate|].
+        split; [intros _; rewrite Es1; repeat split; assumption|]. split; [assumption|]. intros _. rewrite Es1. assumption.
+      - rewrite Hfut.
+        destruct (ensure_length_props (N.of_nat (length (r0_body r1))) _ Hhs Hlo) as (A1 & A2 & A3 & A4).
+        split; [assumption|]. split; [|split; [discriminate|split; [assumption|congruence]]].
+        intros _. split; [assumption|]. rewrite A4, app_nil_r. reflexivity. }
+    destruct Hhs2 as (Hok2 & Hfr & Hun & Hte2 & Hnb).
+    assert (Ps' : hd_status (package h3) = r0_status r1) by (rewrite Ps; reflexivity).
+    destruct (connection_rule_props (r0_status r1) (hd_headers (package h3)) (Ph Hok2)) as (Ch & Cf).
+    (* the future's bytes are written unless the method is HEAD: the status is not 101 when there is a future *)
+    assert (Hstr : forall m', (if (m' =? M_HEAD) && negb (r0_status r1 =? 101) then [] else stream_bytes r1)
+                              = (if m' =? M_HEAD then [] else stream_bytes r1)).
+    { intros m'. destruct (m' =? M_HEAD); [|reflexivity]. cbn [andb].
+      destruct (N.eqb_spec (r0_status r1) 101) as [E101|_]; [|reflexivity]. cbn [negb].
+      unfold stream_bytes. destruct (r0_future r1) as [f|] eqn:Ef; [|reflexivity].
+      assert (Hf : bodyless_status (r0_status r1) = false) by (apply Hnb; discriminate).
+      rewrite E101 in Hf. discriminate. }
+    eexists r1, _. split; [exact E1|]. split; [rewrite Esend, E1; reflexivity|].
+    cbn [st_head st_body hd_version hd_status hd_headers]. fold hs2. fold h3. rewrite !Ps'.
+    split; [|split; [|split; [|split; [|split; [|split]]]]].
+    - rewrite Pv. cbn [h3 hd_version]. split; [|split; [lia | exact Ch]].
+      unfold ensure_version.
+      destruct (N.eqb_spec (r0_version r1) 9) as [E9|_]; [congruence|].
+      destruct (N.eqb_spec (r0_version r1) 10) as [->|_]; [left; reflexivity|].
+      destruct (N.eqb_spec (r0_version r1) 11) as [->|_]; right; reflexivity.
+    - rewrite Cf; [|reflexivity]. apply Pt. assumption.
+    - rewrite Hstr, body_written_spec. destruct (m =? M_HEAD); reflexivity.
+    - intros Hb.
+      unfold stream_bytes. destruct (r0_future r1) as [f|] eqn:Ef.
+      + assert (Hf : bodyless_status (r0_status r1) = false) by (apply Hnb; discriminate). congruence.
+      + rewrite (Hbl Hb). reflexivity.
+    - intros m'. eexists. split; [rewrite Esend, E1; reflexivity|].
+      cbn [st_head hd_version hd_status hd_headers]. fold hs2. fold h3. rewrite !Ps'. reflexivity.
+    - intros Hu. destruct (Hfr Hu) as (_ & Hcl2).
+      unfold announced. rewrite Cf; [|reflexivity]. rewrite Pc. cbn [h3 hd_headers]. rewrite Hcl2.
       cbn [snd]. apply parse_length_dec.
-    - apply body_written_spec.
-    - rewrite Ps. cbn [h3 hd_status]. assumption.
-    - reflexivity.
+    - intros Hu. destruct (Hun Hu) as (Hte3 & Hcl3 & Hnb3).
+      assert (Hclp : filter (is_name s_content_length) (hd_headers (package h3)) = []) by (rewrite Pc; exact Hcl3).
+      assert (Htep : filter (is_name s_transfer_encoding) (hd_headers (package h3)) = []) by (apply Pt; exact Hte3).
+      split; [rewrite Cf; [assumption | reflexivity]|]. split; [assumption|].
+      unfold connection_rule, close_delimited_head.
+      apply has_header_false in Hclp. apply has_header_false in Htep. rewrite Hclp, Htep, Hnb3.
+      cbn [orb negb]. apply assoc_hm_insert.
   Qed.
 
-  Lemma send_framed m r s : reply_ok r -> send error_body package m r = Ok s -> framed m s.
+  (** under [reply_ok], "the connection is kept" = "the reply does not stream a body of unknown length" *)
+  Lemma send_framed m r s : reply_ok r -> unframed r = false -> send error_body package m r = Ok s -> framed m s.
   Proof.
-    intros Hr Hs. destruct (send_facts m r Hr) as (r1 & s' & _ & Es & Hh & Ha & Hb & Hbl & _).
-    rewrite Hs in Es. inversion Es; subst s'. split; [assumption|].
+    intros Hr Hu Hs. destruct (send_facts m r Hr) as (r1 & s' & _ & Es & (Hv & Hst & Hhs) & Hte & Hb & Hbl & _ & Ha & _).
+    rewrite Hs in Es. inversion Es; subst s'. specialize (Ha Hu). split.
+    { unfold head_ok. repeat split; try assumption; try lia. apply existsb_filter_nil. assumption. }
     unfold is_head_method. destruct (N.eqb_spec m M_HEAD) as [->|Hne]; cbn [orb].
     - split; [assumption|]. unfold announced_ok_bodyless. unfold announced in Ha.
       destruct (filter (is_name s_content_length) (hd_headers (st_head s))) as [|h [|h2 t]]; try discriminate.
@@ -477,29 +709,46 @@ Section SendProofs.
   Lemma send_never_panics m r : reply_ok r -> exists s, send error_body package m r = Ok s.
   Proof. intros Hr. destruct (send_facts m r Hr) as (r1 & s & _ & Es & _). eauto. Qed.
 
-  (** [length_is_body]: content-length = number of body bytes written, for every method but HEAD *)
-  Lemma length_is_body_lemma m r s : reply_ok r -> m <> M_HEAD -> send error_body package m r = Ok s ->
+  (** [length_is_body]: content-length = number of body bytes written (body and streamed chunks), for every
+      method but HEAD *)
+  Lemma length_is_body_lemma m r s : reply_ok r -> unframed r = false -> m <> M_HEAD -> send error_body package m r = Ok s ->
     announced (hd_headers (st_head s)) = Some (N.of_nat (length (st_body s))).
   Proof.
-    intros Hr Hm Hs. destruct (send_facts m r Hr) as (r1 & s' & _ & Es & _ & Ha & Hb & _).
+    intros Hr Hu Hm Hs. destruct (send_facts m r Hr) as (r1 & s' & _ & Es & _ & _ & Hb & _ & _ & Ha & _).
     rewrite Hs in Es. inversion Es; subst s'. rewrite Hb.
-    destruct (N.eqb_spec m M_HEAD); [contradiction | assumption].
+    destruct (N.eqb_spec m M_HEAD); [contradiction | auto].
   Qed.
 
-  (** [head_has_no_body]: for HEAD nothing follows the head, and the head — in particular the announced
-      length — is the one GET gets for the same reply of [handle_cache] *)
+  (** [head_has_no_body]: for HEAD nothing follows the head - whether the body is held by the reply or
+      streamed by its future - and the head, in particular the announced length, is the one GET gets for the
+      same reply of [handle_cache] *)
   Lemma head_has_no_body_lemma r s : reply_ok r -> send error_body package M_HEAD r = Ok s ->
     st_body s = [] /\
     exists g, send error_body package M_GET r = Ok g /\ st_head g = st_head s /\
-              announced (hd_headers (st_head s)) = Some (N.of_nat (length (st_body g))).
+              (unframed r = false -> announced (hd_headers (st_head s)) = Some (N.of_nat (length (st_body g)))).
   Proof.
     intros Hr Hs.
-    destruct (send_facts M_HEAD r Hr) as (r1 & s' & E1 & Es & _ & Ha & Hb & _ & Hh).
+    destruct (send_facts M_HEAD r Hr) as (r1 & s' & E1 & Es & _ & _ & Hb & _ & Hall & Ha & _).
     rewrite Hs in Es. inversion Es; subst s'. split; [exact Hb|].
-    destruct (send_facts M_GET r Hr) as (r1' & g & E1' & Eg & _ & _ & Hbg & _ & Hhg).
+    destruct (send_facts M_GET r Hr) as (r1' & g & E1' & Eg & _ & _ & Hbg & _ & _ & _ & _).
     rewrite E1 in E1'. inversion E1'; subst r1'.
-    exists g. split; [assumption|]. split; [rewrite Hh, Hhg; reflexivity|].
-    rewrite Hbg. exact Ha.
+    destruct (Hall M_GET) as (g' & Eg' & Hh). rewrite Eg in Eg'. inversion Eg'; subst g'.
+    exists g. split; [assumption|]. split; [assumption|].
+    intros Hu. rewrite Hbg. cbn. auto.
+  Qed.
+
+  Lemma send_close_framed m r s : reply_ok r -> unframed r = true -> send error_body package m r = Ok s ->
+    close_framed m s /\ assoc s_connection (hd_headers (st_head s)) = Some (B "close") /\
+    announced (hd_headers (st_head s)) = None.
+  Proof.
+    intros Hr Hu Hs. destruct (send_facts m r Hr) as (r1 & s' & _ & Es & (Hv & Hst & Hhs) & Hte & Hb & Hbl & _ & _ & Hc).
+    rewrite Hs in Es. inversion Es; subst s'. destruct (Hc Hu) as (Hcl & Hnb & Hconn).
+    split; [|split; [assumption | unfold announced; rewrite Hcl; reflexivity]].
+    split.
+    { unfold head_ok. repeat split; try assumption; try lia. apply existsb_filter_nil. assumption. }
+    rewrite Hnb, orb_false_r. unfold is_head_method. destruct (N.eqb_spec m M_HEAD) as [->|Hne].
+    - split; [assumption|]. unfold announced_ok_bodyless. rewrite Hcl. reflexivity.
+    - left. assumption.
   Qed.
 End SendProofs.
 
@@ -537,7 +786,7 @@ Lemma limited_framed tmb m : framed m (limited tmb true m).
 Proof.
   unfold limited. cbn [andb].
   set (v := dec (N.of_nat (length tmb))).
-  assert (E : connection_rule (hm_insert s_content_length v
+  assert (E : connection_rule 429 (ensure_length (N.of_nat (length tmb))
             [(B "content-type", B "text/html; charset=utf-8"); (s_content_length, v); (B "content-encoding", B "identity")])
           = [(B "content-type", B "text/html; charset=utf-8"); (s_content_length, v); (B "content-encoding", B "identity");
              (s_connection, s_keep_alive)]) by reflexivity.
@@ -551,7 +800,7 @@ Proof.
   unfold no_host. cbn [andb].
   set (body := r0_body (default_error eb 409 (Some (B "The host you're looking for wasn't found.")))).
   set (v := dec (N.of_nat (length body))).
-  assert (E : connection_rule (hm_insert s_content_length v
+  assert (E : connection_rule 409 (ensure_length (N.of_nat (length body))
                (r0_headers (default_error eb 409 (Some (B "The host you're looking for wasn't found.")))))
           = [(B "content-type", B "text/html; charset=utf-8"); (B "content-encoding", B "identity");
              (B "reason", B "The host you're looking for wasn't found."); (s_content_length, v);
@@ -618,7 +867,8 @@ Section ConnProofs.
   (** the application keeps an invariant [I] of its state (e.g. "every cached response is well formed") under
       which what it returns satisfies [reply_ok] *)
   Definition app_ok (I : A -> Prop) : Prop :=
-    forall a q, I a -> reply_ok (snd (fst (app a q))) /\ I (fst (fst (app a q))).
+    forall a q, I a -> reply_ok (snd (fst (app a q))) /\ unframed (snd (fst (app a q))) = false /\
+                       I (fst (fst (app a q))).
   Definition packages_ok : Prop := forall q, package_ok (package q).
 
   Lemma after_body_polite (h : hreq Q) (lim : option N) :
@@ -647,12 +897,12 @@ Section ConnProofs.
       cbn [conn_run serve_seq]. unfold conn_step. rewrite Hk. cbn [negb].
       destruct (h_action h) eqn:Ea; [| |congruence].
       + destruct (app a (h_q h)) as [[a' r] lim] eqn:Eapp.
-        pose proof (Happ a (h_q h) Ia) as [Hr Ia']. rewrite Eapp in Hr, Ia'. cbn [fst snd] in Hr, Ia'.
+        pose proof (Happ a (h_q h) Ia) as (Hr & Hu & Ia'). rewrite Eapp in Hr, Hu, Ia'. cbn [fst snd] in Hr, Hu, Ia'.
         destruct (send_never_panics error_body (package (h_q h)) (Hpk (h_q h)) (q_method (h_q h)) r Hr) as (s & Es).
-        rewrite Es. rewrite (after_body_polite h lim Hh).
+        rewrite Es. rewrite (after_body_polite h lim Hh), Hu.
         destruct (IH a' Ia' Hrest) as (ss & E1 & E2 & E3). rewrite E1, E2.
         exists (s :: ss). repeat split. cbn [map]. constructor; [|assumption].
-        exact (send_framed error_body (package (h_q h)) (Hpk (h_q h)) _ r s Hr Es).
+        exact (send_framed error_body (package (h_q h)) (Hpk (h_q h)) _ r s Hr Hu Es).
       + rewrite (after_body_polite h None Hh).
         destruct (IH a Ia Hrest) as (ss & E1 & E2 & E3). rewrite E1, E2.
         exists (limited too_many_body true (q_method (h_q h)) :: ss). repeat split.
@@ -696,7 +946,8 @@ Section PathProofs.
     | h :: rest =>
         match h_action h with
         | ASend => run_ok a rest
-        | _ => reply_ok (snd (fst (app a (h_q h)))) /\ run_ok (fst (fst (app a (h_q h)))) rest
+        | _ => reply_ok (snd (fst (app a (h_q h)))) /\ unframed (snd (fst (app a (h_q h)))) = false /\
+               run_ok (fst (fst (app a (h_q h)))) rest
         end
     end.
 
@@ -717,12 +968,12 @@ Section PathProofs.
       - inversion Hp as [|? ? Hh Hrest]; subst. pose proof Hh as (Hk & Hd & Ht).
         cbn [conn_run run_ok] in *. unfold conn_step. rewrite Hk. cbn [negb].
         destruct (h_action h) eqn:Ea; [| |congruence].
-        + destruct Hrun as [Hr Hrun]. destruct (app a (h_q h)) as [[a' r] lim] eqn:Eapp. cbn [fst snd] in Hr, Hrun.
+        + destruct Hrun as (Hr & Hu & Hrun). destruct (app a (h_q h)) as [[a' r] lim] eqn:Eapp. cbn [fst snd] in Hr, Hu, Hrun.
           destruct (send_never_panics error_body (package (h_q h)) (Hpk (h_q h)) (q_method (h_q h)) r Hr) as (s & Es).
-          rewrite Es. rewrite (after_body_polite Q q_method q_content_length q_known_host error_body h lim Hh).
+          rewrite Es. rewrite (after_body_polite Q q_method q_content_length q_known_host error_body h lim Hh), Hu.
           destruct (IH a' Hrun Hrest) as (ss & E1 & E3). rewrite E1.
           exists (s :: ss). split; [reflexivity|]. cbn [map]. constructor; [|assumption].
-          exact (send_framed error_body (package (h_q h)) (Hpk (h_q h)) _ r s Hr Es).
+          exact (send_framed error_body (package (h_q h)) (Hpk (h_q h)) _ r s Hr Hu Es).
         + rewrite (after_body_polite Q q_method q_content_length q_known_host error_body h None Hh).
           destruct (IH a Hrun Hrest) as (ss & E1 & E3). rewrite E1.
           exists (limited too_many_body true (q_method (h_q h)) :: ss). split; [reflexivity|].
@@ -732,9 +983,87 @@ Section PathProofs.
     - apply forall2_length in E3. rewrite map_length in E3. symmetry. assumption.
     - rewrite written_somes. apply framing_roundtrip_forall2. assumption.
   Qed.
+
+  (** the application state after a history (of requests the server answers) *)
+  Fixpoint app_after (a : A) (hs : list (hreq Q)) : A :=
+    match hs with
+    | [] => a
+    | h :: rest =>
+        match h_action h with
+        | ASend => app_after a rest
+        | _ => app_after (fst (fst (app a (h_q h)))) rest
+        end
+    end.
+
+  (** a history whose last request is answered by a stream of unknown length: every request is answered, in
+      order; the last response announces no length and says [connection: close], the server closes the
+      connection after it, and a client that reads the last body up to the end of the stream recovers every
+      response *)
+  Lemma closing_history_lemma : forall hs a h,
+    run_ok a hs -> Forall (polite Q q_method q_content_length q_known_host) (hs ++ [h]) -> h_action h = APassed ->
+    reply_ok (snd (fst (app (app_after a hs) (h_q h)))) -> unframed (snd (fst (app (app_after a hs) (h_q h)))) = true ->
+    exists ss s,
+      conn_run Q A q_method q_content_length q_known_host q_head app error_body package too_many_body true true a (Open []) (hs ++ [h])
+        = (map Some (ss ++ [s]), Closed) /\
+      length ss = length hs /\
+      announced (hd_headers (st_head s)) = None /\ assoc s_connection (hd_headers (st_head s)) = Some (B "close") /\
+      parse_closing (map (fun h => q_method (h_q h)) (hs ++ [h])) (written (map Some (ss ++ [s])))
+        = Some (map observable (ss ++ [s])).
+  Proof.
+    assert (H : forall hs a h,
+      run_ok a hs -> Forall (polite Q q_method q_content_length q_known_host) (hs ++ [h]) -> h_action h = APassed ->
+      reply_ok (snd (fst (app (app_after a hs) (h_q h)))) -> unframed (snd (fst (app (app_after a hs) (h_q h)))) = true ->
+      exists ss s,
+        conn_run Q A q_method q_content_length q_known_host q_head app error_body package too_many_body true true a (Open []) (hs ++ [h])
+          = (map Some (ss ++ [s]), Closed) /\
+        Forall2 framed (map (fun h => q_method (h_q h)) hs) ss /\
+        close_framed (q_method (h_q h)) s /\
+        announced (hd_headers (st_head s)) = None /\ assoc s_connection (hd_headers (st_head s)) = Some (B "close")).
+    { induction hs as [|h0 hs IH]; intros a h Hrun Hp Ha Hr Hu.
+      - cbn [app_after] in Hr, Hu. cbn [Datatypes.app] in Hp. inversion Hp as [|? ? Hh _]; subst. pose proof Hh as (Hk & _ & _).
+        cbn [Datatypes.app conn_run]. unfold conn_step. rewrite Hk, Ha. cbn [negb].
+        destruct (app a (h_q h)) as [[a' r] lim] eqn:Eapp. cbn [fst snd] in Hr, Hu.
+        destruct (send_never_panics error_body (package (h_q h)) (Hpk (h_q h)) (q_method (h_q h)) r Hr) as (s & Es).
+        rewrite Es. rewrite (after_body_polite Q q_method q_content_length q_known_host error_body h lim Hh), Hu.
+        destruct (send_close_framed error_body (package (h_q h)) (Hpk (h_q h)) _ r s Hr Hu Es) as (Hc & Hconn & Hann).
+        exists [], s. cbn [Datatypes.app map conn_run]. split; [reflexivity|]. split; [constructor|]. split; [exact Hc | split; [exact Hann | exact Hconn]].
+      - change ((h0 :: hs) ++ [h]) with (h0 :: (hs ++ [h])) in *.
+        inversion Hp as [|? ? Hh Hrest]; subst. pose proof Hh as (Hk & Hd & Ht).
+        cbn [conn_run run_ok app_after] in *. unfold conn_step. rewrite Hk. cbn [negb].
+        destruct (h_action h0) eqn:Ea0; [| |congruence].
+        + destruct Hrun as (Hr0 & Hu0 & Hrun). destruct (app a (h_q h0)) as [[a' r0] lim] eqn:Eapp. cbn [fst snd] in *.
+          destruct (send_never_panics error_body (package (h_q h0)) (Hpk (h_q h0)) (q_method (h_q h0)) r0 Hr0) as (s0 & Es0).
+          rewrite Es0. rewrite (after_body_polite Q q_method q_content_length q_known_host error_body h0 lim Hh), Hu0.
+          destruct (IH a' h Hrun Hrest Ha Hr Hu) as (ss & s & E1 & E3 & Hc & Hann & Hconn). rewrite E1.
+          exists (s0 :: ss), s. split; [reflexivity|]. split; [|split; [exact Hc | split; [exact Hann | exact Hconn]]].
+          cbn [map]. constructor; [|assumption].
+          exact (send_framed error_body (package (h_q h0)) (Hpk (h_q h0)) _ r0 s0 Hr0 Hu0 Es0).
+        + rewrite (after_body_polite Q q_method q_content_length q_known_host error_body h0 None Hh).
+          destruct (IH a h Hrun Hrest Ha Hr Hu) as (ss & s & E1 & E3 & Hc & Hann & Hconn). rewrite E1.
+          exists (limited too_many_body true (q_method (h_q h0)) :: ss), s. split; [reflexivity|].
+          split; [|split; [exact Hc | split; [exact Hann | exact Hconn]]]. cbn [map]. constructor; [apply limited_framed | assumption]. }
+    intros hs a h Hrun Hp Ha Hr Hu. destruct (H hs a h Hrun Hp Ha Hr Hu) as (ss & s & E1 & E3 & Hc & Hann & Hconn).
+    exists ss, s. split; [assumption|]. split.
+    { apply forall2_length in E3. rewrite map_length in E3. symmetry. assumption. }
+    split; [assumption|]. split; [assumption|].
+    rewrite written_somes, !map_app, concat_app. cbn [map concat]. rewrite app_nil_r.
+    apply closing_roundtrip; assumption.
+  Qed.
 End PathProofs.
 
 (** the executable checks of Model/Http1Write.v imply the hypotheses *)
+Lemma stream_okb_sound r : stream_okb r = true -> stream_ok r.
+Proof.
+  unfold stream_okb, stream_ok. destruct (r0_future r) as [[[l|] cs]|]; intros H; [| |exact Logic.I].
+  - apply andb_true_iff in H as [H1 H2]. split; [destruct (bodyless_status (r0_status r)); [discriminate | reflexivity]|].
+    apply N.eqb_eq in H2. exact H2.
+  - apply andb_true_iff in H as [H H3]. apply andb_true_iff in H as [H1 H2].
+    split; [destruct (bodyless_status (r0_status r)); [discriminate | reflexivity]|].
+    split; apply has_header_false.
+    + destruct (has_header s_transfer_encoding (r0_headers r)); [discriminate | reflexivity].
+    + destruct (has_header s_content_length (r0_headers r)); [discriminate | reflexivity].
+Qed.
+
 Lemma reply_okb_sound r : reply_okb r = true -> reply_ok r.
 Proof.
   unfold reply_okb, reply_ok. intros H.
@@ -745,16 +1074,12 @@ Proof.
   { apply Forall_forall. intros x Hx.
     match goal with Hl : forallb (fun h => beq (lower (fst h)) (fst h)) _ = true |- _ =>
       eapply forallb_forall in Hl; [|exact Hx]; apply beq_eq in Hl; exact Hl end. }
-  split.
-  { apply existsb_filter_nil. destruct (existsb (is_name s_transfer_encoding) (r0_headers r)); [discriminate | reflexivity]. }
-  split.
-  { intros Hb. match goal with Hn : negb (bodyless_status _) || is_nil _ = true |- _ => rewrite Hb in Hn; cbn [negb orb] in Hn end.
-    destruct (r0_body r); [reflexivity | discriminate]. }
+  split; [|apply stream_okb_sound; assumption].
   destruct (r0_sanitize r) as [[[s e]|]|]; try exact Logic.I. lia.
 Qed.
 
 Lemma c8_politeb_sound h : c8_politeb h = true ->
-  polite c8req (fun q => rq_method (q_req q)) (fun q => header s_content_length (q_req q)) (fun q => negb (q_nohost q)) h.
+  polite c8req (fun q => rq_method (q_req q)) c8_content_length (fun q => negb (q_nohost q)) h.
 Proof.
   unfold c8_politeb, polite. intros H. repeat (apply andb_true_iff in H; destruct H as [H ?]).
   split; [assumption|]. split; [intros E; rewrite E in *; discriminate|]. lia.
@@ -762,18 +1087,22 @@ Qed.
 
 Lemma c8_hyps_sound cfg : forall hs st, c8_hyps cfg st hs = true ->
   run_ok c8req c8_state (fun st q => c8_app cfg st (q_req q)) st hs /\
-  Forall (polite c8req (fun q => rq_method (q_req q)) (fun q => header s_content_length (q_req q)) (fun q => negb (q_nohost q))) hs.
+  Forall (polite c8req (fun q => rq_method (q_req q)) c8_content_length (fun q => negb (q_nohost q))) hs.
 Proof.
   induction hs as [|h hs IH]; intros st H; [split; [exact Logic.I | constructor]|].
   cbn [c8_hyps] in H. apply andb_true_iff in H as [Hp H]. apply c8_politeb_sound in Hp.
   cbn [run_ok].
   destruct (h_action h).
-  - destruct (c8_app cfg st (q_req (h_q h))) as [[st' r] lim] eqn:E. apply andb_true_iff in H as [Hr H].
-    destruct (IH st' H) as [H1 H2]. cbn [fst snd]. split; [split; [apply reply_okb_sound; assumption | assumption]|].
+  - destruct (c8_app cfg st (q_req (h_q h))) as [[st' r] lim] eqn:E.
+    apply andb_true_iff in H as [Hr H]. apply andb_true_iff in Hr as [Hr Hu].
+    destruct (IH st' H) as [H1 H2]. cbn [fst snd].
+    split; [split; [apply reply_okb_sound; assumption | split; [destruct (unframed r); [discriminate | reflexivity] | assumption]]|].
     constructor; assumption.
   - destruct (IH st H) as [H1 H2]. split; [assumption | constructor; assumption].
-  - destruct (c8_app cfg st (q_req (h_q h))) as [[st' r] lim] eqn:E. apply andb_true_iff in H as [Hr H].
-    destruct (IH st' H) as [H1 H2]. cbn [fst snd]. split; [split; [apply reply_okb_sound; assumption | assumption]|].
+  - destruct (c8_app cfg st (q_req (h_q h))) as [[st' r] lim] eqn:E.
+    apply andb_true_iff in H as [Hr H]. apply andb_true_iff in Hr as [Hr Hu].
+    destruct (IH st' H) as [H1 H2]. cbn [fst snd].
+    split; [split; [apply reply_okb_sound; assumption | split; [destruct (unframed r); [discriminate | reflexivity] | assumption]]|].
     constructor; assumption.
 Qed.
 
@@ -787,9 +1116,59 @@ Lemma checked_history_lemma cfg reqs :
                              (written (map Some ss)) = Some (map observable ss).
 Proof.
   intros H. destruct (c8_hyps_sound cfg _ _ H) as [Hrun Hp]. unfold c8_run.
-  apply (conn_polite_path c8req c8_state (fun q => rq_method (q_req q)) (fun q => header s_content_length (q_req q))
+  apply (conn_polite_path c8req c8_state (fun q => rq_method (q_req q)) c8_content_length
            (fun q => negb (q_nohost q)) q_raw_head (fun st q => c8_app cfg st (q_req q)) hardcoded_error_body
            (fun _ h => h) TOO_MANY (fun q => package_id_ok) _ _ Hrun Hp).
+Qed.
+
+(** the executable check for a history that ends with a stream of unknown length *)
+Lemma c8_hyps_closing_sound cfg : forall hs st k n, c8_hyps_closing cfg st hs k = Some n ->
+  exists pre h post, hs = pre ++ h :: post /\ n = (k + length pre + 1)%nat /\
+    run_ok c8req c8_state (fun st q => c8_app cfg st (q_req q)) st pre /\
+    Forall (polite c8req (fun q => rq_method (q_req q)) c8_content_length (fun q => negb (q_nohost q)))
+           (pre ++ [h]) /\
+    h_action h = APassed /\
+    reply_ok (snd (fst (c8_app cfg (app_after c8req c8_state (fun st q => c8_app cfg st (q_req q)) st pre) (q_req (h_q h))))) /\
+    unframed (snd (fst (c8_app cfg (app_after c8req c8_state (fun st q => c8_app cfg st (q_req q)) st pre) (q_req (h_q h))))) = true.
+Proof.
+  induction hs as [|h hs IH]; intros st k n H; [discriminate|].
+  cbn [c8_hyps_closing] in H. destruct (c8_politeb h) eqn:Ep; [|discriminate]. cbn [negb] in H.
+  apply c8_politeb_sound in Ep.
+  destruct (h_action h) eqn:Ea; [| |discriminate].
+  - destruct (c8_app cfg st (q_req (h_q h))) as [[st' r] lim] eqn:E.
+    destruct (reply_okb r) eqn:Er; [|discriminate]. cbn [negb] in H. apply reply_okb_sound in Er.
+    destruct (unframed r) eqn:Eu.
+    + inversion H; subst n. exists [], h, hs. cbn [Datatypes.app length app_after run_ok]. rewrite E. cbn [fst snd].
+      split; [reflexivity|]. split; [lia|]. split; [exact Logic.I|]. split; [constructor; [assumption | constructor]|].
+      split; [assumption|]. split; assumption.
+    + destruct (IH st' (S k) n H) as (pre & h' & post & -> & -> & Hrun & Hp & Ha' & Hr' & Hu').
+      exists (h :: pre), h', post. cbn [Datatypes.app length app_after run_ok]. rewrite Ea, E. cbn [fst snd].
+      split; [reflexivity|]. split; [lia|]. split; [split; [assumption | split; assumption]|].
+      split; [constructor; assumption|]. split; [assumption|]. split; assumption.
+  - destruct (IH st (S k) n H) as (pre & h' & post & -> & -> & Hrun & Hp & Ha' & Hr' & Hu').
+    exists (h :: pre), h', post. cbn [Datatypes.app length app_after run_ok]. rewrite Ea.
+    split; [reflexivity|]. split; [lia|]. split; [assumption|].
+    split; [constructor; assumption|]. split; [assumption|]. split; assumption.
+Qed.
+
+(** every history of the correspondence run whose fifth [h1w.expect] field is 1: up to and including the first
+    answer that is a stream of unknown length it is an instance of [closing_history_lemma] (what is sent
+    after that is not answered: [closed_is_silent_lemma]) *)
+Lemma checked_closing_history_lemma cfg reqs n :
+  c8_hyps_closing cfg (c8_state0 cfg) (with_actions (c8_limit cfg) 1 reqs) O = Some n ->
+  exists pre h post ss s,
+    with_actions (c8_limit cfg) 1 reqs = pre ++ h :: post /\ n = S (length pre) /\
+    c8_run_hs true true cfg (pre ++ [h]) = (map Some (ss ++ [s]), Closed) /\ length ss = length pre /\
+    announced (hd_headers (st_head s)) = None /\ assoc s_connection (hd_headers (st_head s)) = Some (B "close") /\
+    parse_closing (map (fun h => rq_method (q_req (h_q h))) (pre ++ [h])) (written (map Some (ss ++ [s])))
+      = Some (map observable (ss ++ [s])).
+Proof.
+  intros H. destruct (c8_hyps_closing_sound cfg _ _ _ _ H) as (pre & h & post & E & En & Hrun & Hp & Ha & Hr & Hu).
+  destruct (closing_history_lemma c8req c8_state (fun q => rq_method (q_req q)) c8_content_length
+              (fun q => negb (q_nohost q)) q_raw_head (fun st q => c8_app cfg st (q_req q)) hardcoded_error_body
+              (fun _ h => h) TOO_MANY (fun q => package_id_ok) pre (c8_state0 cfg) h Hrun Hp Ha Hr Hu)
+    as (ss & s & E1 & E2 & E3 & E4 & E5).
+  exists pre, h, post, ss, s. split; [assumption|]. split; [lia|]. unfold c8_run_hs. repeat split; assumption.
 Qed.
 
 (** the failure modes of the loop: after the server closed, nothing more is written; a request beyond the
@@ -829,9 +1208,9 @@ Section CloseProofs.
   Qed.
 End CloseProofs.
 
-(** ---- witnesses: the code before the C08 repairs, and why the hypotheses are needed ---- *)
+(** ---- witnesses: the code before the C08 repairs ---- *)
 Definition w_cfg : c8cfg :=
-  mkC8 (mkCfg true false true [] [] [] 500) [(B "/f.txt", B "0123456789abcdefghij")] [] 0.
+  mkC8 (mkCfg true false true [] [] [] 500) [(B "/f.txt", B "0123456789abcdefghij")] [] 0 [].
 Definition w_req (m t : bytes) (hs : list (bytes * bytes)) (body : bytes) (early : nat) : c8req * bytes * nat :=
   (mkC8req (d_request 0 m t hs) false (m ++ [32] ++ t ++ B " HTTP/1.1" ++ crlf), body, early).
 (** POST to a file (405, body not read), the ten body bytes arrive after the head; then GET *)
@@ -856,11 +1235,65 @@ Lemma limited_head_v0_witness :
     (parse_responses [M_HEAD; M_GET] (wire (limited TOO_MANY true M_HEAD) ++ wire (limited TOO_MANY true M_GET))) = Some [429; 429].
 Proof. vm_compute. split; reflexivity. Qed.
 
-(** a handler that answers 204 with a body breaks the framing: the hypothesis of [reply_ok] is needed *)
+(** what the two send paths write for a HEAD followed by a GET that get the same reply *)
+Definition w_pair (snd_ : N -> reply0 -> outcome sent) (r : reply0) : bytes :=
+  match snd_ M_HEAD r, snd_ M_GET r with Ok a, Ok c => wire a ++ wire c | _, _ => [] end.
+Definition w_send := send hardcoded_error_body (fun h => h).
+Definition w_send_v0 := send_v0 hardcoded_error_body (fun h => h).
+
+(** a handler that answers 204 with a body: before the repair b4638db the body was written and the strict
+    client lost the framing; now it is dropped *)
+Definition w_204 : reply0 := mkR0 11 204 [] (B "oops") (Some None) None.
 Lemma bodyless_with_body_witness :
-  exists r s, send hardcoded_error_body (fun h => h) M_GET r = Ok s /\ r0_status r = 204 /\ r0_body r <> [] /\
-              parse_responses [M_GET] (wire s) = None.
+  (exists s, w_send_v0 M_GET w_204 = Ok s /\ parse_responses [M_GET] (wire s) = None) /\
+  (exists s, w_send M_GET w_204 = Ok s /\ st_body s = [] /\
+             option_map (map p_status) (parse_responses [M_GET] (wire s)) = Some [204]).
+Proof. split; eexists; (split; [vm_compute; reflexivity|]); vm_compute; repeat split. Qed.
+
+(** a streamed reply (announced length 11, the future writes "hello " and "world"): before the repair
+    537474e the future ran for HEAD too *)
+Definition w_stream : reply0 :=
+  mkR0 11 200 [(B "content-type", B "text/plain")] [] (Some None) (Some (Some 11, [B "hello "; B "world"])).
+Lemma head_stream_v0_witness :
+  parse_responses [M_HEAD; M_GET] (w_pair w_send_v0 w_stream) = None /\
+  option_map (map (fun p => (p_status p, p_body p))) (parse_responses [M_HEAD; M_GET] (w_pair w_send w_stream))
+    = Some [(200, []); (200, B "hello world")].
+Proof. vm_compute. split; reflexivity. Qed.
+
+(** a stream of unknown length: before the repair feabc71 it went out without a length on a connection
+    announced and kept as keep-alive - no client can tell where it ends; now the head says close and the
+    server closes after it *)
+Definition w_nolen : reply0 :=
+  mkR0 11 200 [(B "content-type", B "text/plain")] [] (Some None) (Some (None, [B "abc"; B "defg"])).
+Lemma unframed_stream_v0_witness :
+  (exists s, w_send_v0 M_GET w_nolen = Ok s /\ announced (hd_headers (st_head s)) = None /\
+             assoc s_connection (hd_headers (st_head s)) = Some s_keep_alive /\
+             parse_responses [M_GET] (wire s) = None) /\
+  (exists s, w_send M_GET w_nolen = Ok s /\ assoc s_connection (hd_headers (st_head s)) = Some (B "close") /\
+             option_map (map p_body) (parse_closing [M_GET] (wire s)) = Some [B "abcdefg"]).
+Proof. split; eexists; (split; [vm_compute; reflexivity|]); vm_compute; repeat split. Qed.
+
+(** a reply that carries [transfer-encoding] (a reverse proxy passing on its upstream's header): before the
+    repair c151144 it went out beside [content-length] *)
+Definition w_te : reply0 :=
+  mkR0 11 200 [(B "content-type", B "text/plain"); (B "transfer-encoding", B "chunked")] (B "with te") (Some None) None.
+Lemma te_with_length_v0_witness :
+  (exists s, w_send_v0 M_GET w_te = Ok s /\ parse_responses [M_GET] (wire s) = None) /\
+  (exists s, w_send M_GET w_te = Ok s /\
+             option_map (map p_body) (parse_responses [M_GET] (wire s)) = Some [B "with te"]).
+Proof. split; eexists; (split; [vm_compute; reflexivity|]); vm_compute; repeat split. Qed.
+
+(** [extensions::stream_body] announces what it sends, for every file and every request (after the repair
+    1d0a5e7; before, a range that reaches past the end of the file announced bytes that never came) *)
+Lemma stream_body_announces_lemma content r :
+  fst (stream_body_future true content r) = Some (N.of_nat (length (concat (snd (stream_body_future true content r))))).
 Proof.
-  exists (mkR0 11 204 [] (B "oops") (Some None)). eexists. split; [vm_compute; reflexivity|].
-  split; [reflexivity|]. split; [discriminate|]. vm_compute. reflexivity.
+  unfold stream_body_future. cbn [fst snd concat]. rewrite app_nil_r, firstn_length, skipn_length. f_equal. lia.
+Qed.
+Lemma stream_body_range_v0_witness :
+  exists content r, fst (stream_body_future false content r)
+                    <> Some (N.of_nat (length (concat (snd (stream_body_future false content r))))).
+Proof.
+  exists (B "0123456789"), (d_request 0 (B "GET") (B "/s/file.txt") [(B "range", B "bytes=0-99")]).
+  vm_compute. discriminate.
 Qed.
